@@ -312,8 +312,8 @@ CHECKS = {
               "generated blocks x encoder option sets, each formula the model generates must occur verbatim (as a tree) among the hard "
               "constraints the real encoder emits, and the executable premises of the theorems (instOk, well-sortedness, svsOk/intTermsOk, "
               "orderOk, thetasOk) are evaluated on the instance. Additionally the text handed to the solver must be accepted by z3 and the "
-              "optimum plus further models, decoded with the tool's own theta table, must pass Spec.realizes. Outside the theorems: the "
-              "-empty variants, instances with a stack bound of 0 or a terminal block, SMT-LIB rendering/declarations and the model reader "
+              "optimum plus further models, decoded with the tool's own theta table, must pass Spec.realizes. The -empty variants are "
+              "modelled too (step_soundE, core_soundE, notEmpty_of_nodup). Outside the theorems: instances with a stack bound of 0 or a terminal block, SMT-LIB rendering/declarations and the model reader "
               "(validated per instance/model). The attempt to prove the order constraints exposed a genuine defect (fixed)."),
         design_ref="DESIGN.md section 8, C06",
         technique="Lean 4 soundness theorems about a model of the Max-SMT encoding generated from the real encoder's instance data + verbatim (tree-level) correspondence of every generated constraint with the real encoder's output; z3 model enumeration with the Lean 'realizes' checker as failing-input search",
